@@ -25,41 +25,41 @@ CHECKS.update({
  "C08": ("snapmc", LAT + " on 3- and 4-level round grids x every non-empty id subset; oracle: per-id result equals the result of requesting that id alone",
    "Every subset of ids {0..3} is requested for every input of the scopes and compared id by id with the single-id request (presence included); id lists as written (descending, largest id not last, duplicates) on a 3-level grid; the multi-level families (thin frames, comb-sided holes) x every subset of {0,1,2}.", SNAP_NOTE, "3/C08"),
  "C09": ("snapmc", "exhaustive enumeration of (grid, id, border, distance, vertex position, ring, flag) through the real snap.SnapPolygon vs half-open extent test on specified fixed-point quantisation",
-   "19 grids (two origins, both corners of origin, two depths, two tile widths, RD at three ids) x 4 borders x 42 distances from 1e-10 to the whole extent x outside/inside x every vertex position, and x 4 corners x 35 pairs of distances from the two borders of the corner; each with the id alone and together with id 0 (both orders), keep on/off, both values of the ignore flag.", "Trusted: the extent of each grid computed from its definition; quantisation as specified (1e-10, truncating).", "3/C09"),
+   "on the 16x16-pixel grids every in-grid pixel x every pixel of the two-pixel frame around the grid as two vertices of one ring (outside vertex at every position, shell and hole); 19 grids (two origins, both corners of origin, two depths, two tile widths, RD at three ids) x 4 borders x 42 distances from 1e-10 to the whole extent x outside/inside x every vertex position, and x 4 corners x 35 pairs of distances from the two borders of the corner; each with the id alone and together with id 0 (both orders), keep on/off, both values of the ignore flag.", "Trusted: the extent of each grid computed from its definition; quantisation as specified (1e-10, truncating).", "3/C09"),
 })
 CHECKS.update({
  "C14": ("tmsmc", "exhaustive enumeration of (built-in set, deepest id) and of every single-level perturbation of every accepted set through the real validateTileMatrixSet (overlay-added in-package test), the real binary and IsQuadTree, against an exact-decimal reference quadtree predicate; pixel size observed through the index",
-   "All 14 shipped sets x all their ids, observed three ways (binary, in-package, library) and compared with a reference predicate; ~3 200 single-condition perturbations (every condition at every level) must be rejected without panic; accepted sets must use pixel size = cellSize/16.",
+   "All 14 shipped sets x all their ids, observed three ways (binary, in-package, library) and compared with a reference predicate; ~4 400 single-condition perturbations (every condition at every level; matrix sizes off by one on one side, on both sides, and on both sides with the deeper levels doubling on) must be rejected without panic; accepted sets must use pixel size = cellSize/16.",
    "Trusted: reference predicate on exact decimals with the tool's stated 1.99..2.01 cell-size tolerance; `go test -overlay` to reach the unexported validateTileMatrixSet (go:embed does not see overlay files, so perturbed sets cannot reach the binary).", "3/C14"),
  "C15": ("tmsmc", "exhaustive enumeration of (set, tile matrix, tile, interior/outside point) through the real FromNative/ToNative/MatrixBoundingBox against exact rational arithmetic on the documents' decimals",
-   "All tiles of every matrix with <= 4096 tiles (thorough 65 536), else all combinations of 8 column and 8 row classes; 5 interior points per tile, 8 outside points per matrix; both corner-of-origin conventions.",
+   "All tiles of every matrix with <= 4096 tiles (thorough 65 536), else all combinations of 8 column and 8 row classes; 5 interior points per tile, 8 outside points per matrix, ToNative also for the tiles one past the last column / row (tile (w,h) closes the bounding box); every built-in set as shipped and rewritten to the other corner of origin.",
    "Trusted: hand-checked axis-order table; tolerance = documented 9-decimal rounding + 8 ulp of the largest operand.", "3/C15"),
  "C16": ("tmsmc", "explicit-state BFS over documents (canonical-JSON states, one structural mutation per transition) from the 15 shipped documents, each state decoded/encoded/decoded by the real tms20 code and classified by a reference validity predicate",
-   "Depth 1 from all full documents, depth 2 (thorough: 3 for two documents) from reduced documents; round trip stability, semantic equality for shipped documents, no panic, must-reject categories rejected.",
+   "Depth 1 from all full documents, depth 2 (thorough: 3 for two documents) from reduced documents; round trip stability, semantic equality for shipped documents, no panic, must-reject categories rejected (tile matrices and bounding box); the mutation alphabet includes arrays one element longer than written, the other spelling of the same CRS reference and of integer ids, a number with 13 decimals; a sentinel value decoded before the exploration must still encode the same after every other document was decoded.",
    "Trusted: the must-reject predicate (only categories the property names); nil/empty slices identified.", "3/C16"),
 })
 CHECKS.update({
  "C06": ("snapmc", "bounded exhaustive input search over arbitrary vertex sequences on the real code built with a mechanically inserted step counter in every loop body (instrumentation of the current sources via go build -overlay); oracle: returns without panic within A*(n+2)^3 loop iterations",
-   "All walks over 2x2 / 5 / 3x2 pixel centres incl. revisits (length <= 12 quick, 14 thorough), all sequences with repeats on the half-pixel lattice, 1-3 rings incl. 1-2 point rings, multi-level, plus valid scopes: no panic, no OutsideGridError, deterministic step budget (no wall-clock oracle).",
+   "All walks over 2x2 / 5 / 3x2 pixel centres incl. revisits (length <= 12 quick, 14 thorough), all sequences with repeats on the half-pixel lattice, 1-3 rings incl. 1-2 point rings, multi-level, several rings x several ids (valid shells with holes and arbitrary ring sequences), plus valid scopes: no panic, no OutsideGridError, deterministic step budget (no wall-clock oracle).",
    "Trusted: the instrumenter's Tick insertion (semantics preserving), frozen budget constant A=64 (19x the largest ratio observed). Deep levels of real grids are covered under C03 (F6/F7).", "3/C06"),
  "C07": ("snapmc", "stateless exploration of map-iteration orders on the instrumented real code (every range over a map / maps.Keys is a choice point; iterative deviation bounding) + exhaustive ring-direction / reverse-flag / repetition checks on the un-instrumented code, with outcome digests compared between the two builds",
    "Per input: all-ascending, all-descending and every execution with <= 1 (thorough 2) deviations (all n! permutations per occurrence for n<=4) must return deep-equal results; plain build: 3 repetitions, every subset of rings reversed, reverse flag relation; conformance: instrumented outcomes re-observed on the un-instrumented build.",
    "Trusted: instrumenter rewrites (validated per run by the digest comparison), maps iterated inside third-party packages are not controlled.", "3/C07"),
 })
 CHECKS.update({
- "C10": ("pipemc", "stateless model checking of the real processing package (mechanically instrumented: every channel operation, select, go statement, WaitGroup / Mutex / Once operation, sync/atomic operation and map iteration is a scheduling / choice point owned by a controlled scheduler) for every feature stream of a bounded alphabet x outcome table, against a sequential reference of what each target must receive",
-   "All streams up to length 3 (1 target), 2 (2-3 targets) over non-polygon / polygon / 1-2 part multipolygon with every kept/dropped/split outcome vector, plus all streams up to length 2 over every non-polygon geometry type (point, line, multi types, collections incl. one holding a polygon, nil, pointer); per stream the default schedule and every schedule with <= 1 deviation (thorough: <= 2 preemptions) incl. all map-iteration orders of the target maps; received features compared exactly (identity, attributes, geometry, order) at hand-over and again at the target's final write.",
+ "C10": ("pipemc", "stateless model checking of the real processing package (mechanically instrumented: every channel operation, select, go statement, WaitGroup / Mutex / Once operation, sync/atomic operation, timer / ticker / sleep and map iteration is a scheduling / choice point owned by a controlled scheduler that runs one goroutine at a time) for every feature stream of a bounded alphabet x outcome table, against a sequential reference of what each target must receive",
+   "All streams up to length 3 (1 target), 2 (2-3 targets) over non-polygon / polygon / 1-2 part multipolygon with every kept/dropped/split outcome vector, plus all streams up to length 2 over every non-polygon geometry type (point, line, multi types, collections incl. one holding a polygon, nil, pointer); per stream the default schedule and every schedule with <= 1 deviation (thorough: <= 2 preemptions) incl. all map-iteration orders of the target maps; received features compared exactly (identity, attributes, geometry, order) at hand-over and again at the target's final write; conformance: every scenario is also run on the un-instrumented package, free running at GOMAXPROCS 1 and 16, against the same reference.",
    "Trusted: scheduler's channel/wait-group model (mismatch = harness error), instrumenter, fake source/targets; Polygon and 1-element MultiPolygon are identified.", "3/C10"),
- "C11": ("pipemc", "stateless model checking of the real (instrumented) processing package under a controlled scheduler: all schedules with state-hash pruning for the small configurations, iterative preemption / deviation bounding for the larger ones; plus a separate free-running -race pass of the same harness bodies against the un-instrumented package",
+ "C11": ("pipemc", "stateless model checking of the real (instrumented) processing package under a controlled scheduler: all schedules with state-hash pruning for the small configurations, iterative preemption / deviation bounding for the larger ones (a deviation = a preemption, a non-default map order, or a virtual timer firing while something else can move; the receiver of a rendezvous is scheduled separately from the sender, so executions are sequentially consistent interleavings); plus a separate free-running -race pass of the same harness bodies against the un-instrumented package",
    "Reader, snapper, router and N writer goroutines (N=1..5) with fake targets whose handling and final write are separately scheduled steps: no deadlock, no livelock (a repeated state in which only goroutines polling an atomic can move), no panic (send on closed, double close, negative wait group), no early return (every target finished its final write when ProcessFeatures returns; the caller's table switch is not observed), no leak, no drop/dup/reorder. One outcome per scenario expected and reported.",
    "Trusted: scheduler model; memory-model effects only through the sampled free-running -race pass (1800 runs, GOMAXPROCS 1/2/16, streams up to 200), reported separately in the evidence.", "3/C11"),
 })
 CHECKS.update({
  "C12": ("gpkgmc", "exhaustive enumeration of a finite lattice of (page size, feature count, content pattern, schema, geometry type) through the real TargetGeopackage on real SQLite files, read back with SQL and compared with the list of features handed over",
-   "Page sizes 1..3 (thorough 6) x counts 0..3p+1 x all content sequences over {small, extent-extending, empty} up to length 5 and all placements of <= 2 special features beyond x two schemas (geometry column in the middle, NULL patterns, values that conversions could damage) x polygon/multipolygon/point; plus two tables written one after the other through one target (all pairs of nine short patterns x page sizes 1-2): rows, order, attributes, geometry, spatial index entries, recorded extent, table definition and SRS.",
+   "Page sizes 1..3 (thorough 6) x counts 0..3p+1 x all content sequences over {small, extent-extending, empty} up to length 5 and all placements of <= 2 special features beyond x two schemas (geometry column in the middle, NULL patterns, values that conversions could damage) x polygon/multipolygon/point; all eight geometry type names a table may carry; a file-local srs_id; plus two tables written one after the other through one target (all pairs of nine short patterns x page sizes 1-2): rows, order, attributes, geometry, spatial index entries, recorded extent, table definition and SRS.",
    "Trusted: the spatialite driver stub (plain SQLite + pure-Go ST_ functions) stands in for libspatialite; a log.Fatal inside texel is reported as a violation with the case that was running.", "3/C12"),
  "C13": ("gpkgmc", "exhaustive enumeration of a union of fully enumerated sub-lattices of invocations of the real texel binary (built from the working tree with the driver stub by overlay) on generated source GeoPackages; every produced file compared table by table, row by row with a reference computed by the library from the decoded source rows",
-   "Id lists (single, descending, three, duplicates) x keep x reverse x page sizes; all 8 flag combinations via command line and environment, with and without an outside-grid feature; 5 target path shapes x fresh/overwrite/pre-existing+overwrite; overwrite with every non-empty proper subset of the requested targets pre-existing x three id lists; every ordering of every subset of >= 2 of the four table kinds (polygon, multipolygon, point, line) and sources with a table without rows; a family of 172 (thorough 516) sources (every sequence of <= 2 polygon kinds x multipolygon kinds, line/point tables); exact file set, rows, attributes, geometries, other tables copied, nothing of an old file survives.",
+   "Id lists (single, descending, three, duplicates) x keep x reverse x page sizes; all 8 flag combinations via command line and environment, with and without an outside-grid feature; 5 target path shapes x fresh/overwrite/pre-existing+overwrite; overwrite with every non-empty proper subset of the requested targets pre-existing x three id lists; id lists with a repeated id x overwrite scenario; the off flags given explicitly as false; every ordering of every subset of >= 2 of the four table kinds (polygon, multipolygon, point, line) and sources with a table without rows; a family of 172 (thorough 516) sources (every sequence of <= 2 polygon kinds x multipolygon kinds, line/point tables); exact file set, rows, attributes, geometries, other tables copied, nothing of an old file survives.",
    "Trusted: driver stub; reference uses snap.SnapPolygon of the same tree (C13 checks plumbing, not snapping).", "3/C13"),
 })
 CHECKS.update({
